@@ -549,11 +549,28 @@ func (l *leaseClient) KeepAlive(ctx context.Context, id clientv3.LeaseID) (<-cha
 	simrt.Go(fmt.Sprintf("etcd-keepalive-%s-%d", l.name, l.seq), func() {
 		defer close(ch)
 		lastOK := time.Now()
+		nextSend := lastOK.Add(ttl / 3)
 		for {
-			simrt.Sleep(ttl / 3)
+			// like the real client: renew every ttl/3, and a deadline loop that closes the
+			// channel as soon as a whole ttl has passed since the last successful renewal
+			deadline := lastOK.Add(ttl)
+			wake := nextSend
+			if deadline.Before(wake) {
+				wake = deadline
+			}
+			if d := time.Until(wake); d > 0 {
+				simrt.Sleep(d)
+			}
 			if ctx.Err() != nil {
 				return
 			}
+			if !time.Now().Before(deadline) {
+				return // client-side expiry
+			}
+			if time.Now().Before(nextSend) {
+				continue
+			}
+			nextSend = time.Now().Add(ttl / 3)
 			alive := false
 			err := c.rpc(ctx, "lease.keepalive", fmt.Sprint(int64(id)), func() error {
 				if cur := l.s.leases[int64(id)]; cur != nil {
